@@ -8,7 +8,10 @@ Streams (DESIGN 3.2):
             indented comment, wrapped uninterpreted line) is in the written file unchanged, between the same
             neighbours (theorem raw_verbatim); compared slot by slot with the model's written file (correspondence)
   fixpoint  bytes of the 2nd..nth written file vs the first (theorem write_fixpoint)
+  tables    tokens of all SFAC (FVAR) lines of the written file vs the input, in file order (theorem
+            table_order_preserved): coalescing keeps content and order, i.e. every element's scattering-factor number
   include   atoms / restraints / logical lines over 1..4 read_file/write cycles with '+name' include files on disk
+            (nested to depth 3)
             (theorems include_transparent, include_no_accumulation; the pre-repair model `cycles_old` is reported
             for comparison)
 Only what the property states is observed: key sequences, verbatim lines, bytes of successive written files, counts.
@@ -69,7 +72,7 @@ class G:
         r = self.rng
         c = r.random()
         if c < 0.4:
-            head = f'{r.choice(UNSUPPORTED)} {r.randint(1, 9)} {self.uid()}'
+            head = f'{r.choice(UNSUPPORTED)} {r.randint(1, 9)} {self.uid()}' + r.choice(['', '', ' a=b', ' ! x = y', ' ! t ='])
         elif c < 0.75:
             # fewer than five tokens in all: five or more make any non-keyword line an atom line
             head = f'{word4(r)} {r.randint(1, 9)}   {self.uid()}'
@@ -87,9 +90,23 @@ class G:
         return [['raw', head]]
 
     def rem(self):
+        """comment lines in any case; a '=' inside or at the end of a REM line is text, never a continuation mark"""
         r = self.rng
-        return [['obj', r.choice(['REM', 'rem', 'Rem']) + f' note {self.uid()}  two  blanks' if r.random() < 0.7
-                 else f'REM R1 = 0.0{r.randint(100, 999)} for {r.randint(100, 9999)} Fo > 4sig(Fo)']]
+        kw = r.choice(['REM', 'rem', 'Rem', 'rEM'])
+        c = r.random()
+        if c < 0.45:
+            return [['obj', f'{kw} note {self.uid()}  two  blanks']]
+        if c < 0.6:
+            return [['obj', f'{kw} R1 = 0.0{r.randint(100, 999)} for {r.randint(100, 9999)} Fo > 4sig(Fo)']]
+        if c < 0.8:
+            return [['obj', f'{kw} {self.uid()} ' + r.choice(['===', '=', 'scale =', '-----=', 'a = b ='])]]
+        if c < 0.9:
+            return [['obj', f'{kw} {self.uid()} x=y ! c = d =']]
+        return [['obj', kw if r.random() < 0.5 else f'{kw} ={self.uid()}']]
+
+    def with_comment(self, line):
+        """a '!' comment behind an instruction; may contain and end in '=' (that is no continuation mark)"""
+        return line + self.rng.choice([' ! plain', ' ! d = 1.5', ' ! ends in =', ' !=', '   !  a=b='])
 
     def comment(self):
         return [['comment', f'  ! comment {self.uid()}' if self.rng.random() < 0.5 else f'   {self.uid()} free text']]
@@ -102,7 +119,7 @@ class G:
         lines, cur = [], ''
         for t in toks:
             if len(cur) + len(t) + 1 > r.randint(55, 74):
-                lines.append(cur + ' =')
+                lines.append(cur + r.choice([' =', ' =', '  =  ', ' = ! go on', '= !=']))
                 cur = '   ' + t
             else:
                 cur = (cur + ' ' + t) if cur else t
@@ -122,9 +139,10 @@ class G:
             return [['blank', '']]
         if c < 0.58:
             return self.long_restraint()
-        if c < 0.80:
-            return [['obj', r.choice(REST)]]
-        return [['obj', r.choice(OBJ)]]
+        line = r.choice(REST) if c < 0.80 else r.choice(OBJ)
+        if r.random() < 0.15:
+            line = self.with_comment(line)
+        return [['obj', line]]
 
     def atom(self, name, sfac, aniso, wrap):
         r = self.rng
@@ -161,34 +179,63 @@ def make_case(rng, with_include):
     els = rng.sample(gen.ELEMENTS, nel)
     if 'C' not in els:
         els[0] = 'C'
-    nsl = rng.choice([1, 1, 2, 3])
-    cuts = sorted(rng.sample(range(1, nel), min(nsl - 1, nel - 1))) if nel > 1 else []
-    parts = [els[i:j] for i, j in zip([0] + cuts, cuts + [nel])]
-    for i, p in enumerate(parts):
-        L.append(['sfac', ('SFAC ' if rng.random() < 0.8 else 'sfac  ') + ' '.join(p)])
-        if i < len(parts) - 1 and rng.random() < 0.4:
+    # both SFAC forms, in any order: 'SFAC elements' lines and 'SFAC E a1 b1 a2 b2 a3 b3 a4 b4 c f' f" mu r wt' lines
+    explicit = [rng.random() < 0.22 for _ in els]
+    groups, cur = [], []
+    for e, ex in zip(els, explicit):
+        if ex:
+            if cur:
+                groups.append(cur)
+                cur = []
+            groups.append(e)
+        else:
+            cur.append(e)
+            if rng.random() < 0.3:
+                groups.append(cur)
+                cur = []
+    if cur:
+        groups.append(cur)
+    for i, p in enumerate(groups):
+        kw = rng.choice(['SFAC', 'SFAC', 'SFAC', 'sfac', 'Sfac'])
+        if isinstance(p, str):
+            co = [f'{rng.uniform(0.1, 70):.4f}'.rstrip('0') + str(rng.randint(1, 9)) for _ in range(14)]
+            cut = rng.randint(6, 10)
+            a = f'{kw} {p.upper() if rng.random() < 0.5 else p} ' + ' '.join(co[:cut])
+            L.append(['sfac', a + ' ='])
+            L.append(['cont', ' ' * rng.randint(1, 6) + ' '.join(co[cut:])])
+        else:
+            L.append(['sfac', kw + ' ' * rng.randint(1, 3) + ' '.join(x.upper() if rng.random() < 0.3 else x for x in p)])
+        if i < len(groups) - 1 and rng.random() < 0.3:
             L += rng.choice([g.raw_line, g.comment, g.rem])()
     L.append(['obj', 'UNIT ' + ' '.join(str(rng.choice([1, 2, 4, 8, 12, 16, 24, 36.5, 48, 96])) for _ in els)])
     fs = {}
     used_incl = False
 
+    def include_file(depth, atom_ok):
+        """writes one include file into fs and returns its name; it may pull in further files (nested)"""
+        k = len(fs) + 1
+        if rng.random() < 0.12:
+            fs[f'missing{k}.dfx'] = None            # unreadable include: nothing is spliced
+            return f'missing{k}.dfx'
+        name = f'inc{k}.dfx'
+        fs[name] = None                              # reserve the name
+        content = []
+        for _ in range(rng.randint(1, 4)):
+            content.append([x[1] for x in rng.choice([lambda: [['obj', rng.choice(REST)]], g.rem, g.raw_line, g.comment,
+                                                      g.long_restraint, lambda: [['blank', '']]])()])
+        if atom_ok and rng.random() < 0.5:     # atoms only behind FVAR
+            content.append([x[1] for x in g.atom(f'X{k}', 1, False, False)])
+        while depth < 3 and len(fs) < 5 and rng.random() < 0.45:
+            # a nested '+name' line at any place: first, in the middle (lines behind it), last
+            content.insert(rng.randint(0, len(content)), ['+' + include_file(depth + 1, atom_ok)])
+        fs[name] = [l for block in content for l in block]
+        return name
+
     def maybe_include(atom_ok=False):
         nonlocal used_incl
-        if with_include and (not used_incl or rng.random() < 0.3) and len(fs) < 3:
+        if with_include and (not used_incl or rng.random() < 0.3) and len(fs) < 4:
             used_incl = True
-            name = f'inc{len(fs) + 1}.dfx'
-            content = []
-            for _ in range(rng.randint(1, 5)):
-                content += [x[1] for x in rng.choice([lambda: [['obj', rng.choice(REST)]], g.rem, g.raw_line, g.comment,
-                                                     g.long_restraint, lambda: [['blank', '']]])()]
-            if atom_ok and rng.random() < 0.5:     # atoms only behind FVAR
-                content += [x[1] for x in g.atom(f'X{len(fs) + 1}', 1, False, False)]
-            if rng.random() < 0.15:
-                name = f'missing{len(fs) + 1}.dfx'     # unreadable include: nothing is spliced
-                fs[name] = None
-            else:
-                fs[name] = content
-            return [['incl', '+' + name]]
+            return [['incl', '+' + include_file(1, atom_ok)]]
         return []
 
     for _ in range(rng.randint(2, 10)):
@@ -229,6 +276,12 @@ def make_case(rng, with_include):
             L.append(['atom', f'Q{j + 1}   1   {rng.uniform(0, 1):.4f}   {rng.uniform(0, 1):.4f}   {rng.uniform(0, 1):.4f}  11.00000  0.05    {rng.uniform(0.1, 2):.2f}'])
         if rng.random() < 0.4:
             L += g.raw_line()
+    # SHELXL is case-insensitive: keywords in lower / mixed case anywhere
+    for item in L:
+        if item[0] in ('obj', 'raw', 'fvar') and rng.random() < 0.15:
+            toks = item[1].split(' ', 1)
+            toks[0] = rng.choice([str.lower, str.capitalize])(toks[0])
+            item[1] = ' '.join(toks)
     return dict(lines=L, fs=fs, n=rng.randint(2, 4))
 
 
@@ -256,7 +309,7 @@ def logical_lines(lines):
             i += 1
             continue
         if l.startswith(' '):
-            out.append(([l], None))
+            out.append(([l], None, []))
             i += 1
             continue
         phys = [l]
@@ -271,7 +324,7 @@ def logical_lines(lines):
         else:
             kw = toks[0].upper() if is_atom_like(toks) else toks[0].upper()[:4]
         tok = toks[1] if len(toks) > 1 else ''
-        out.append((phys, (kw, None if kw in ('SFAC', 'FVAR') else canon_tok(kw, tok))))
+        out.append((phys, (kw, None if kw in ('SFAC', 'FVAR') else canon_tok(kw, tok)), toks))
     return out
 
 
@@ -285,14 +338,19 @@ def is_atom_like(toks):
 
 
 def keys_of(lines):
-    return [k for _, k in logical_lines(lines) if k is not None]
+    return [k for _, k, _ in logical_lines(lines) if k is not None]
+
+
+def table_tokens(lines, kw):
+    """everything the SFAC (FVAR) lines of a file say, in file order: elements / coefficients / values"""
+    return [canon_tok(kw, t) for _, k, toks in logical_lines(lines) if k is not None and k[0] == kw for t in toks[1:]]
 
 
 def slots_impl(out_lines, rawset):
     """the written file as slots: ('raw', text) for every physical line the generator made as uninterpreted text,
     ('key', kw, tok) per printed logical line (consecutive SFAC / FVAR lines are one slot)"""
     slots = []
-    for phys, key in logical_lines(out_lines):
+    for phys, key, _ in logical_lines(out_lines):
         if phys[0] in rawset:
             slots += [('raw', p) for p in phys]
         elif key is None:
@@ -384,9 +442,13 @@ def evaluate(ctx, cases, stream=None):
         kinds = [k for k, _ in case['lines']]
         has_incl = any(v is not None for v in case['fs'].values())
         nraw = sum(k in ('raw', 'comment') for k in kinds)
+        nexp = sum(1 for k, l in case['lines'] if k == 'sfac' and len(l.split()) > 2 and not ''.join(l.rstrip(' =').split()[1:]).isalpha())
+        nested = any(l.startswith('+') for v in case['fs'].values() if v for l in v)
+        remeq = any(re.match(r'^rem\b.*=\s*$', l.split('!')[0]) and not l.startswith('REM') for _, l in case['lines'])
         tags = [f'sfac_lines={kinds.count("sfac")}', f'fvar_lines={kinds.count("fvar")}', f'include={len(case["fs"])}',
                 f'cycles={case["n"]}', 'wrapped-raw' if 'rawcont' in kinds else 'no-wrapped-raw',
-                'wrapped-obj' if 'cont' in kinds else 'no-wrapped-obj', 'after-END' if kinds[-1] != 'raw' or lines[-1] != 'END' else 'END-last']
+                'wrapped-obj' if 'cont' in kinds else 'no-wrapped-obj', 'nested-include' if nested else 'flat-or-no-include',
+                'sfac-mixed' if 0 < nexp < kinds.count('sfac') else 'sfac-explicit' if nexp else 'sfac-plain', 'rem-lower-eq' if remeq else 'no-rem-lower-eq', 'after-END' if kinds[-1] != 'raw' or lines[-1] != 'END' else 'END-last']
         ctx.count(lines + [sorted(case['fs'].items(), key=lambda kv: kv[0]), case['n']],
                   nontrivial=nraw >= 1 and (kinds.count('sfac') > 1 or kinds.count('fvar') > 1 or has_incl or 'rawcont' in kinds or 'cont' in kinds),
                   sample=dict(lines=len(lines), uninterpreted=nraw, sfac=kinds.count('sfac'), fvar=kinds.count('fvar'),
@@ -413,6 +475,20 @@ def evaluate(ctx, cases, stream=None):
             ctx.fail(f'C07|order|{"include|" if has_incl else ""}expected-kind={kind}',
                      f'instruction sequence of the written file differs from the input at position {j}: expected {exp}, written {got}',
                      dict(base, stream='order', expected=ca['a'], actual=ca['b'], model=m['model_keys']))
+        # --- content of the coalesced tables keeps the order of the input ---------------------------------------
+        for kw in ('SFAC', 'FVAR'):
+            tin, tout = table_tokens(lines, kw), table_tokens(out1_lines, kw)
+            form = ('mixed' if 0 < nexp < kinds.count('sfac') else 'explicit' if nexp else 'plain') if kw == 'SFAC' else f'lines={min(kinds.count("fvar"), 2)}'
+            if tin != tout:
+                j = next((i for i, (x, y) in enumerate(zip(tin, tout)) if x != y), min(len(tin), len(tout)))
+                ctx.fail(f'C07|table-order|{kw}|{form}',
+                         f'{kw} lines of the written file list {tout[j:j + 3]} where the input has {tin[j:j + 3]} (entry {j + 1}): '
+                         f'the coalesced table does not keep the order of the input',
+                         dict(base, stream='order', expected=tin, actual=tout))
+            mt = [canon_tok(kw, t) for t in m['tables'][kw.lower()]]
+            if mt != tin:
+                ctx.fail(f'C07|model|table|{kw}', f'model collects {mt[:6]}… for the {kw} table, the input says {tin[:6]}…',
+                         dict(base, stream='order', expected=tin, model=mt), kind='correspondence')
         # --- verbatim, in place (slot comparison with the by-construction tags and with the model) --------------
         rawset = {l for k, l in case['lines'] if k in ('raw', 'rawcont', 'comment', 'incl')}
         want_raw = [l for k, l in case['lines'] if k in ('raw', 'rawcont', 'comment', 'incl')]
@@ -434,9 +510,10 @@ def evaluate(ctx, cases, stream=None):
         for k in range(1, len(obs['outs'])):
             if obs['outs'][k] != out1:
                 i, x, y = first_diff(out1, obs['outs'][k])
-                kw = (x.split() or y.split() or ['?'])[0].upper()[:4]
-                kw = kw if kw in [t.split()[0][:4].upper() for t in OBJ + REST] + ['SFAC', 'FVAR', 'UNIT', 'CELL', 'ZERR', 'LATT', 'SYMM', 'REM', 'HKLF', 'WGHT', 'PART', 'AFIX', 'RESI'] else ('atom' if is_atom_like((x or y).split()) else 'text')
-                ctx.fail(f'C07|fixpoint|{"include|" if has_incl else ""}line={kw}',
+                w = (x.split() or y.split() or ['?'])[0].upper()[:4]
+                kw = 'table' if w in ('SFAC', 'FVAR') else 'atom' if is_atom_like((x or y).split()) else \
+                    'instr' if w in [t.split()[0][:4].upper() for t in OBJ + REST] + ['UNIT', 'CELL', 'ZERR', 'LATT', 'SYMM', 'REM', 'HKLF', 'WGHT', 'PART', 'AFIX', 'RESI'] else 'text'
+                ctx.fail(f'C07|fixpoint|{"include|" if has_incl else ""}kind={kw}',
                          f'written file {k + 1} differs from written file 1 at line {i + 1}: {x!r} became {y!r}',
                          dict(base, stream='fixpoint', expected=x, actual=y, cycle=k + 1, model=dict(fixpoint=m['out2_same'])))
                 break
@@ -488,14 +565,17 @@ def run(ctx):
                 'restraints/commands/REM/uninterpreted lines (15 unsupported keywords, random unknown 4-letter words, '
                 'TITL LIST TEMP EXTI OMIT EQIV ANSR, guarded BIND/SPEC/TWST forms)/indented comments/blank lines/wrapped '
                 'restraints/wrapped uninterpreted lines, FVAR(1-3 lines, 1-15 values), 2-9 atoms (iso/aniso, wrapped), '
-                'PART/AFIX/RESI, HKLF, END, optional WGHT/Q-peaks/text after END; optionally 1-3 include files on disk '
-                '(one may be missing); 2-4 read/write cycles; distinct by file text; non-trivial = at least one '
+                'PART/AFIX/RESI, HKLF, END, optional WGHT/Q-peaks/text after END; keywords in upper/lower/mixed case; REM lines '
+                'of any case with = inside/at the end; SFAC lines in both forms mixed; optionally 1-5 include files on disk, '
+                'nested to depth 3 (some missing); 2-4 read/write cycles; distinct by file text; non-trivial = at least one '
                 'uninterpreted line and (several SFAC or FVAR lines, or an include file, or a wrapped line)')
-    ctx.assumptions = ['quiet mode (debug mode raises on unknown keywords by design)',
-                       "'=' occurs only as the continuation mark at the end of a line or inside REM lines (C05 covers '=' in comments)",
-                       'REM lines containing = are written in upper case (lower-case rem with = is joined with the next line: C05)',
+    ctx.assumptions = ['quiet mode',
+                       "a continuation mark is a '=' that ends the text before any '!' comment; '=' elsewhere (inside lines, in and at "
+                       "the end of comments, in and at the end of REM lines of any case) is generated as ordinary text",
                        'uninterpreted lines are shorter than 79 characters (longer ones are re-wrapped by wrap_line: C06)',
-                       'include files are self-contained (no SFAC/FVAR, no dangling =, no nested +file) and named once',
+                       'include files (nested up to depth 3, nested +name line first / in the middle / last, unreadable files) '
+                       'are self-contained (no SFAC/FVAR, no dangling =) and every name is used once (else ValueError)',
+                       'SFAC in both forms in any order (element names; E a1 b1 ... wt, wrapped); no element twice',
                        'UNIT numbers below 1000 and no exponent forms (printing of large numbers: C01)']
     n = ctx.budget(400, 6000)
     cases = []
